@@ -61,4 +61,126 @@ theorem pathChoice_parseRequestURI_abs {raw sch rest a q : Bytes} {u : Url}
           exact pathChoice_setPath ⟨q, rfl⟩ h
         · cases h
 
+/-- absolute-form targets: the authority only gates success; Path / RawPath come from the text after it -/
+theorem parseRequestURI_abs {raw sch rest a : Bytes} (hctl : containsCTL raw = false)
+    (hsch : getScheme true [] raw = some (some (sch, rest))) (hr : beforeQuery rest = 47 :: 47 :: a) :
+    parseRequestURI raw =
+      some (if authorityOk (a.takeWhile (· != 47)) then setPath (a.dropWhile (· != 47)) else none) := by
+  have hne : raw ≠ [] := by intro e; subst e; simp [getScheme] at hsch
+  have h42 : raw ≠ [42] := by intro e; subst e; simp [getScheme, isLetter] at hsch
+  unfold parseRequestURI
+  simp only [hctl, Bool.false_eq_true, ↓reduceIte, hne, h42, hsch, hr]
+  split <;> rfl
+
+theorem pathChoice_empty : pathChoice ⟨[], []⟩ = [] := by decide
+
+/-! ### the earlier easy authority class lies inside the full `parseAuthority` model -/
+
+theorem mem_takeWhile_pred {p : UInt8 → Bool} {c : UInt8} : ∀ {l : Bytes}, c ∈ l.takeWhile p → p c = true
+  | [], h => by cases h
+  | x :: r, h => by
+    by_cases hx : p x = true
+    · simp only [List.takeWhile_cons, hx, ↓reduceIte, List.mem_cons] at h
+      rcases h with rfl | h
+      · exact hx
+      · exact mem_takeWhile_pred h
+    · simp [List.takeWhile_cons, hx] at h
+
+theorem lastIndexByte_none {x : UInt8} : ∀ {a : Bytes}, (∀ c ∈ a, c ≠ x) → lastIndexByte x a = none
+  | [], _ => rfl
+  | c :: r, h => by
+    have h1 := lastIndexByte_none (x := x) (a := r) (fun d hd => h d (List.mem_cons_of_mem _ hd))
+    have h2 : c ≠ x := h c (List.mem_cons_self ..)
+    simp [lastIndexByte, h1, h2]
+
+theorem lastIndexByte_append {x : UInt8} (ds : Bytes) (hd : ∀ c ∈ ds, c ≠ x) :
+    ∀ h : Bytes, lastIndexByte x (h ++ x :: ds) = some h.length
+  | [] => by simp [lastIndexByte, lastIndexByte_none hd]
+  | c :: r => by simp [lastIndexByte, lastIndexByte_append ds hd r]
+
+def simpleByte (c : UInt8) : Bool := isAlnum c || c == 46 || c == 45 || c == 58
+
+theorem hostEscapesOk_simple : ∀ a : Bytes, (∀ c ∈ a, simpleByte c = true) → hostEscapesOk false a = true
+  | [], _ => rfl
+  | c :: r, h => by
+    have hc := h c (List.mem_cons_self ..)
+    have ih := hostEscapesOk_simple r (fun d hd => h d (List.mem_cons_of_mem _ hd))
+    have h37 : c ≠ 37 := by intro e; subst e; revert hc; decide
+    have hs : hostShouldEscape c = false := by
+      simp only [simpleByte, Bool.or_eq_true, beq_iff_eq] at hc
+      unfold hostShouldEscape
+      rcases hc with ((hc | hc) | hc) | hc
+      · simp [hc]
+      · subst hc; decide
+      · subst hc; decide
+      · subst hc; decide
+    unfold hostEscapesOk
+    simp [h37, hs, ih]
+
+theorem authorityOk_simpleBytes (host : Bytes) (hhost : ∀ c ∈ host, simpleByte c = true ∧ c ≠ 58)
+    (port : Bytes) (hport : port = [] ∨ ∃ ds, port = 58 :: ds ∧ ∀ c ∈ ds, 48 ≤ c ∧ c ≤ 57) :
+    authorityOk (host ++ port) = true := by
+  have hall : ∀ c ∈ host ++ port, simpleByte c = true := by
+    intro c hc
+    rcases List.mem_append.mp hc with h | h
+    · exact (hhost c h).1
+    · rcases hport with rfl | ⟨ds, rfl, hds⟩
+      · cases h
+      · rcases List.mem_cons.mp h with rfl | h
+        · decide
+        · obtain ⟨h1, h2⟩ := hds c h
+          simp only [simpleByte, isAlnum, Bool.or_eq_true, Bool.and_eq_true, decide_eq_true_eq]
+          left; left; left; right; exact ⟨h1, h2⟩
+  have hat : ∀ c ∈ host ++ port, c ≠ 64 := by
+    intro c hc e; subst e; have := hall _ hc; revert this; decide
+  have hbr : ∀ c ∈ host ++ port, c ≠ 91 := by
+    intro c hc e; subst e; have := hall _ hc; revert this; decide
+  have hesc := hostEscapesOk_simple _ hall
+  have hhostOk : hostOk (host ++ port) = true := by
+    unfold hostOk
+    split
+    · rename_i r heq
+      exact absurd rfl (hbr 91 (by rw [heq]; exact List.mem_cons_self ..))
+    · rcases hport with rfl | ⟨ds, rfl, hds⟩
+      · have : lastIndexByte 58 (host ++ []) = none :=
+          lastIndexByte_none (by intro c hc; rw [List.append_nil] at hc; exact (hhost c hc).2)
+        simp only [this]; exact hesc
+      · have hd : ∀ c ∈ ds, c ≠ 58 := by
+          intro c hc e; subst e; have := (hds _ hc).2; revert this; decide
+        rw [lastIndexByte_append ds hd host]
+        have hv : validOptionalPort (List.drop host.length (host ++ 58 :: ds)) = true := by
+          rw [List.drop_left]
+          simp only [validOptionalPort, beq_self_eq_true, Bool.true_and, List.all_eq_true, Bool.and_eq_true,
+            decide_eq_true_eq]
+          exact hds
+        simp only [hv, Bool.not_true, Bool.false_eq_true, ↓reduceIte]
+        exact hesc
+  unfold authorityOk
+  rw [lastIndexByte_none hat]
+  exact hhostOk
+
+/-- the authorities of the earlier, easy model class are accepted by the full model of `parseAuthority` -/
+theorem simpleAuth_authorityOk (a : Bytes) (h : simpleAuth a = true) : authorityOk a = true := by
+  simp only [simpleAuth, Bool.and_eq_true, List.all_eq_true] at h
+  obtain ⟨hh, hp⟩ := h
+  rw [← List.takeWhile_append_dropWhile (p := (· != 58)) (l := a)]
+  apply authorityOk_simpleBytes
+  · intro c hc
+    have h1 := hh c hc
+    have h2 := mem_takeWhile_pred hc
+    refine ⟨?_, by simpa using h2⟩
+    simp only [simpleByte, Bool.or_eq_true] at h1 ⊢
+    exact Or.inl h1
+  · have hd := List.head?_dropWhile_not (· != 58) a
+    cases hP : a.dropWhile (· != 58) with
+    | nil => exact Or.inl rfl
+    | cons x ds =>
+      right
+      simp only [hP, List.head?_cons] at hd
+      have hx : x = 58 := by simpa using hd
+      subst hx
+      refine ⟨ds, rfl, ?_⟩
+      simp only [hP, List.all_eq_true, Bool.and_eq_true, decide_eq_true_eq] at hp
+      exact hp
+
 end GB.C03
